@@ -76,6 +76,14 @@ Definition C11_delivery_liveness_statement : Prop :=
     (forall n l, internal l = true -> step true (sts n) l <> None -> exists k, n <= k /\ internal (sched k) = true) ->
     pending (sts 0) m -> exists n, In m (got (gens (sts n) c)).
 
+(* --- the tie: the specification machine that validates the recorded logs is sound for the model ---------- *)
+(* the log of EVERY run of the model (all schedules; the client itself never gives up a connection: no
+   TarsClient.Close, no idle close — the harness's scripts contain neither) is accepted by [c11_accepts];
+   hence a rejected recorded log is a behaviour of the implementation that the model does not have *)
+Theorem C11_spec_machine_sound : forall ls s, run true init ls = Some s ->
+  Forall (fun l => client_close l = false) ls -> c11_accepts (log s) = true.
+Proof. exact ClientConnProofs.spec_machine_sound. Qed.
+
 (* --- the pinned client violates all clauses (design-time defect, reproduced by the harness) ------------- *)
 Theorem C11_pinned_refuted : exists s, run false init sched_defect = Some s /\
   In (0, 1, true) (atts s) /\ In 1 (late (gens s 0)) /\
@@ -97,6 +105,7 @@ Print Assumptions C11_no_write_to_dead.
 Print Assumptions C11_delivery.
 Print Assumptions C11_call_after_known_close.
 Print Assumptions C11_delivery_example.
+Print Assumptions C11_spec_machine_sound.
 Print Assumptions C11_no_write_to_dead_literal_refuted.
 Print Assumptions C11_pinned_refuted.
 Print Assumptions C11_repaired_example.
